@@ -75,7 +75,8 @@ func c18LoadSeeds() {
 
 // c18LiteralSeed: string literals and quoted identifiers over a hostile alphabet (backslashes, quotes, control characters)
 func c18LiteralSeed(r *core.Rng) string {
-	alpha := []string{"\\\\", "\\\\", "a", "b", "t", "n", "0", " ", "\\'", "''", "\"", "`", "\\t", "\\n", "%", "_", "é", ":", "C:", "dir"}
+	// (white space of every kind, also in runs: a printed literal keeps each of its blanks)
+	alpha := []string{"\\\\", "\\\\", "a", "b", "t", "n", "0", " ", "\\'", "''", "\"", "`", "\\t", "\\n", "%", "_", "é", ":", "C:", "dir", "  ", "   ", "\u3000", "\u00a0", " \u3000", "\t", "\n"}
 	lit := func() string {
 		var sb strings.Builder
 		for k := r.Range(0, 6); k > 0; k-- {
@@ -94,7 +95,10 @@ func c18LiteralSeed(r *core.Rng) string {
 		}
 		return "`" + sb.String() + "`"
 	}
-	switch r.Intn(8) {
+	switch r.Intn(9) {
+	case 8:
+		// literals inside composite expressions without a field reference (they are evaluated both ways)
+		return "SELECT " + lit() + " = " + lit() + ", LEN(" + lit() + ") + 0, " + lit() + " < " + lit() + ", CASE WHEN " + lit() + " = " + lit() + " THEN " + lit() + " ELSE " + lit() + " END, " + lit() + " IN (" + lit() + ", " + lit() + "), " + lit() + " BETWEEN " + lit() + " AND " + lit() + ", NOT " + lit() + " <> " + lit()
 	case 7:
 		// quoted names behind the variable sigils (only @% takes one)
 		sig := []string{"@", "@@", "@#", "@%"}[r.Intn(4)]
